@@ -119,6 +119,13 @@ func c10gen(g *gen, tier string, w *bufio.Writer) {
 			if q.ecs != nil && g.chance(1, 6) {
 				q.ecs.scope = []int{0, 0, 17, 24}[g.intn(4)]
 			}
+			if q.ecs != nil && q.ecs.family == 1 && g.chance(1, 8) {
+				// the same IPv4 subnet written as a family-2 option with an IPv4-mapped address: both
+				// drivers treat it as an IPv4 client; the scope stays on the 128-bit scale of the option
+				q.ecs.family = 2
+				q.ecs.addr = append(append(make([]byte, 10), 0xff, 0xff), q.ecs.addr...)
+				q.ecs.source += 96
+			}
 		}
 		fmt.Fprintln(w, "servecs"+serveOpLine(df, qs)[len("serve"):])
 		// cache on: the same question from clients with different OPT / client-subnet options
@@ -329,12 +336,9 @@ func c03gen(g *gen, tier string, w *bufio.Writer) {
 			}
 			ones, bits := ipn.Mask.Size()
 			ip16 := ipn.IP.To16()
-			if bits == 32 && ipn.IP.Equal(net.IPv4zero) && ones != 0 {
-				return // W2: 0.0.0.0/n with n > 0 is taken for the IPv4 default route
-			}
-			if bits == 128 && ip16.Equal(net.IPv6zero) && ones != 0 {
-				return // W2: ::/n with n > 0 is taken for the IPv6 default route
-			}
+			// (W2 - 0.0.0.0/n and ::/n with n > 0 taken for default routes - was a defect of
+			// Rearranger.AddLocation and is repaired: such blocks are generated like any other)
+			_ = ip16
 			if bits == 128 && ones < 96 && ones > 0 {
 				// W3: no IPv6 block other than ::/0 may contain ::ffff:0:0/96
 				probe := net.ParseIP("::ffff:0:0")
@@ -371,7 +375,8 @@ func c03gen(g *gen, tier string, w *bufio.Writer) {
 			case 5:
 				add(fmt.Sprintf("2001:db8:%x::/%d", g.intn(65536), []int{32, 40, 48, 56, 64}[g.intn(5)]))
 			case 6: // touching ::ffff:0:0/96 from both sides
-				add(g.pick([]string{"::fffe:0:0/96", "::1:0:0:0/80", "0.0.0.0/1", "128.0.0.0/1", "::fffe:ffff:ffff/128"}))
+				add(g.pick([]string{"::fffe:0:0/96", "::1:0:0:0/80", "0.0.0.0/1", "128.0.0.0/1", "::fffe:ffff:ffff/128", "0.0.0.0/8", "0.0.0.0/31",
+					"::/96", "::/120", "::/128", "0.0.0.0/1"}))
 			default:
 				add(fmt.Sprintf("%s/%d", g.ip4(), 1+g.intn(32)))
 			}
